@@ -14,6 +14,7 @@
 import json
 import os
 import threading
+import time
 
 from ..common import Check, MachineryError, SPEC
 from .. import tlc
@@ -319,7 +320,9 @@ def run(tier):
                 seen[c["status"]] += 1
         chk.add_tlc(r)
         total += len(cases)
+        t1 = time.time()
         check_cases(chk, cases, sl["graph"], procs, label=name)
+        chk.cov.setdefault("phases_s", {})[name] = {"tlc_emit": r["wall_s"], "cases": len(cases), "execute": round(time.time() - t1, 1)}
     threads[0].join()
     if errors:
         raise errors[0][1]
